@@ -5,9 +5,38 @@
 
 package markdown
 
-//@ unit setup_sweep props=C11 files=setup.go nilchecks=on nonnil_params=on dispenser_variants=on exclude=`markdown\.loadParams$` filter=`.`
+//@ unit setup_sweep props=C11 files=setup.go nilchecks=on nonnil_params=on dispenser_variants=on exclude=`markdown\.(loadParams|markdownParse)$` filter=`.`
 //@ // Safety sweep of this directive's setup code: index, slice, division, nil-map store, nil dereference, explicit panic,
 //@ // and termination of the loops driven by the token cursor. No functional contract; callees in the dispenser through their contracts.
 //@ use casketfile/contracts_verif.go:dispenser_api
 //@ use @verif/specs/stdlib.spec:stdlib
 //@ use @verif/specs/stdlib.spec:casket_api
+
+//@ unit markdown_parse props=C11 nilchecks=on dispenser_variants=on filter=`markdown\.(markdownParse|loadParams)$`
+//@ // the parser of the `markdown` directive and its per-line helper: the configuration under construction always has its
+//@ // extension set, template set and template-file table (made by markdownParse before the block is read), so no
+//@ // sub-directive can store into a nil map or hand a nil template on; safety and termination for every token sequence
+//@ use casketfile/contracts_verif.go:dispenser_api
+//@ use @verif/specs/stdlib.spec:stdlib
+//@ use @verif/specs/stdlib.spec:casket_api
+//@ define wfCfg(m *Config) bool = m != nil && m.Extensions != nil && m.TemplateFiles != nil && m.Template != nil
+//@ func GetDefaultTemplate
+//@   ensures result != nil
+//@ func SetTemplate
+//@   requires t != nil
+//@ extern github.com/russross/blackfriday.HtmlRenderer
+//@ extern (*text/template.Template).ParseGlob
+//@ extern path/filepath.Glob
+//@ extern path/filepath.Clean
+//@ extern path/filepath.ToSlash
+//@ extern path/filepath.Base
+//@ func loadParams
+//@   requires c != nil && wfCfg(mdc)
+//@   modifies Dispenser.cursor, Dispenser.nesting, Config.Styles, Config.Scripts, MV:map[string]struct{}, MD:map[string]struct{}, MV:map[string]*github.com/tmpim/casket/caskethttp/markdown.cachedFileInfo, MD:map[string]*github.com/tmpim/casket/caskethttp/markdown.cachedFileInfo
+//@   ensures [cursor_monotone] c.Dispenser.cursor >= old(c.Dispenser.cursor)
+//@   loop 1 invariant c != nil && wfCfg(mdc)
+//@   loop 2 invariant c != nil && wfCfg(mdc)
+//@ func markdownParse
+//@   requires c != nil
+//@   loop 1 invariant c != nil
+//@   loop 2 invariant c != nil && wfCfg(md)
